@@ -26,6 +26,7 @@ func init() {
 			c09R5(c, "C09.R5")
 			ruleFreelistNoAlias(c, "C09.R6")
 			c09R7(c, "C09.R7")
+			ruleRollbackUndoesFrees(c, "C09.R8") // "rolling a transaction back restores exactly the prior state": every abort path calls freelist.Rollback before the lock is released
 		},
 		CHA: func(c *Ctx) { ruleFreeSetEntry(c, "C09.R1") },
 	})
